@@ -421,6 +421,18 @@ theorem C16_duration_all_digit_lists (ip fp u : Str) (m : Nat) (hip : allDigits 
   ⟨css2_css2Text ip fp u m hip hfp hne hu, parseDuration_css2Text ip fp u m hip hfp hne hu⟩
 #assert_axioms C16_duration_all_digit_lists
 
+/-- a number followed by a word of letters that is neither a unit (in the accepted spellings) nor a
+keyword and does not start with `e`/`E`: the abort value, for all digit lists and all such words
+(`1Sx`, `1sec`, `1mS`, `2.5min`, …) -/
+theorem C16_duration_unknown_unit (ip fp : Str) (c : Nat) (r : Str) (hip : allDigits ip = true)
+    (hfp : allDigits fp = true) (hne : ip ≠ [] ∨ fp ≠ []) (hu : ∀ x ∈ c :: r, isLetter x)
+    (he : c ≠ 69 ∧ c ≠ 101) (hunit : unitMult (c :: r) = none)
+    (hkw : c :: r ≠ kwTrue ∧ c :: r ≠ kwFalse ∧ c :: r ≠ kwNull)
+    (hrange : fp ≠ [] ∨ digitsVal ip ≤ i64Max) :
+    parseDuration (css2Text ip fp (c :: r)) = -1 :=
+  parseDuration_unknown_unit ip fp c r hip hfp hne hu he hunit hkw hrange
+#assert_axioms C16_duration_unknown_unit
+
 /-! ## The verdict on the unchanged code -/
 
 /-- P15: two pending sends with the SAME send id.  `delayed_send.insert` drops the first guard:
